@@ -26,6 +26,7 @@
      three to exercise the skip.
    The result is checked on every run against receipt.NewReceipt for every receipt a decoded body's
    report names (Check_Bytes.v, code 8), including the `rcpt:` family of hand-written root blocks. *)
+From Coq Require Import Permutation.
 From Ucanto Require Import Base Varint Ipld Cbor Formats Blockstore MessageFormat Cid Car MessageBytes TokenBytes ReceiptFormat.
 Open Scope N_scope.
 
@@ -209,3 +210,207 @@ Section ReadFacts.
     client_receipt mh_digest d inv = None \/ exists x, client_receipt mh_digest d inv = Some x.
   Proof. destruct (client_receipt mh_digest d inv); eauto. Qed.
 End ReadFacts.
+
+(* ------------------------------------------------------------------ *)
+(* on the encoder's output the typed matcher is the reader of ReceiptFormat.v:                     *)
+(* a receipt the library can issue reads back as itself (canonical form)                           *)
+
+Lemma keys_within_perm allowed (a b : list (bstr * ipld)) : Permutation a b -> keys_within allowed a = keys_within allowed b.
+Proof.
+  intros P. unfold keys_within. destruct (forallb _ b) eqn:B.
+  - rewrite forallb_forall in *. intros x Hx. apply B. eapply Permutation_in; eauto.
+  - destruct (forallb _ a) eqn:A; [|reflexivity]. rewrite <- B. symmetry.
+    rewrite forallb_forall in *. intros x Hx. apply A. eapply Permutation_in; [symmetry|]; eauto.
+Qed.
+
+Lemma as_struct_canon allowed m :
+  keys_within allowed m = true -> NoDup (map fst m) ->
+  exists es, as_struct allowed (canon (IMap m)) = TOk es /\
+             forall k, slookup k es = option_map canon (slookup k m).
+Proof.
+  intros K ND. exists (sort_map (map (on_snd canon) m)). split.
+  - rewrite canon_map_eq. unfold as_struct.
+    rewrite (keys_within_perm allowed _ _ (sort_map_perm _)).
+    assert (K' : keys_within allowed (map (on_snd canon) m) = true).
+    { unfold keys_within in *. rewrite forallb_forall in *. intros x Hx. apply in_map_iff in Hx.
+      destruct Hx as [[k v] [<- Hin]]. exact (K _ Hin). }
+    rewrite K'. cbn [negb].
+    assert (N : nodupb (map fst (sort_map (map (on_snd canon) m))) = true).
+    { apply nodupb_NoDup. eapply Permutation_NoDup; [apply Permutation_map; symmetry; apply sort_map_perm|].
+      rewrite map_fst_on_snd. exact ND. }
+    rewrite N. reflexivity.
+  - intros k. pose proof (map_get_canon_top k m ND) as H. rewrite canon_map_eq in H. exact H.
+Qed.
+
+Lemma links_typed_canon l : links_typed (canon (IList (map ILink l))) = Some l.
+Proof. unfold links_typed. cbn [canon as_list obind]. apply links_roundtrip. Qed.
+
+Lemma effects_typed_canon fork join :
+  effects_typed (canon (struct_map [field k_fork (IList (map ILink fork)); opt_field k_join (option_map ILink join)]))
+  = TOk (fork, join).
+Proof.
+  unfold struct_map.
+  set (m := concat [field k_fork (IList (map ILink fork)); opt_field k_join (option_map ILink join)]).
+  assert (K : keys_within [k_fork; k_join] m = true) by (destruct join; reflexivity).
+  assert (ND : NoDup (map fst m)).
+  { destruct join; cbn; repeat constructor; cbn; intuition discriminate. }
+  destruct (as_struct_canon _ _ K ND) as [es [E L]].
+  unfold effects_typed. rewrite E. cbn [tbind]. unfold req, opt. rewrite !L.
+  assert (F : slookup k_fork m = Some (IList (map ILink fork))) by (destruct join; reflexivity).
+  rewrite F. cbn [option_map obind]. rewrite links_typed_canon. cbn [of_opt tbind].
+  destruct join as [j|].
+  - assert (J : slookup k_join m = Some (ILink j)) by reflexivity. rewrite J. reflexivity.
+  - assert (J : slookup k_join m = None) by reflexivity. rewrite J. reflexivity.
+Qed.
+
+Lemma result_typed_canon (okk : bool) val :
+  wf_ipld val = true -> is_null val = false ->
+  result_typed (canon (IMap [((if okk then k_ok else k_error), val)]))
+  = TOk (if okk then (Some (canon val), None) else (None, Some (canon val))).
+Proof.
+  intros W N.
+  set (m := [((if okk then k_ok else k_error), val)]).
+  assert (K : keys_within [k_ok; k_error; k_err] m = true) by (destruct okk; reflexivity).
+  assert (ND : NoDup (map fst m)) by (cbn; repeat constructor; cbn; intuition).
+  destruct (as_struct_canon _ _ K ND) as [es [E L]].
+  unfold result_typed. rewrite E. cbn [tbind]. unfold opt. rewrite !L.
+  destruct okk.
+  - assert (A : slookup k_ok m = Some val) by reflexivity.
+    assert (B : slookup k_error m = None) by reflexivity.
+    assert (C : slookup k_err m = None) by reflexivity.
+    rewrite A, B, C. cbn [option_map]. rewrite (as_any_canon _ W N). reflexivity.
+  - assert (A : slookup k_ok m = None) by reflexivity.
+    assert (B : slookup k_error m = Some val) by reflexivity.
+    assert (C : slookup k_err m = None) by reflexivity.
+    rewrite A, B, C. cbn [option_map]. rewrite (as_any_canon _ W N). reflexivity.
+Qed.
+
+Definition tout_of (o : outcome) : tout :=
+  mkTout (o_ran o) (if o_ok o then Some (o_val o) else None) (if o_ok o then None else Some (o_val o))
+         (o_fork o) (o_join o) (o_meta o) (o_iss o) (o_prf o).
+
+Lemma to_outcome_tout_of o : to_outcome (tout_of o) = Some o.
+Proof. destruct o as [ran okk val fork join meta iss prf]. destruct okk; reflexivity. Qed.
+
+(* what receipt.Issue can produce: a present, well-formed result value; well-formed, distinct meta entries *)
+Definition outcome_typed_ok (o : outcome) : bool :=
+  negb (is_null (o_val o)) && wf_ipld (o_val o) && fact_typed_ok (o_meta o).
+
+Lemma outcome_typed_canon o :
+  outcome_typed_ok o = true -> outcome_typed (canon (outcome_ipld o)) = TOk (tout_of (canon_outcome o)).
+Proof.
+  unfold outcome_typed_ok. rewrite !andb_true_iff, negb_true_iff. intros [[N W] FM].
+  destruct o as [ran okk val fork join meta iss prf].
+  cbn [o_val o_meta] in N, W, FM.
+  unfold outcome_ipld, struct_map. cbn [o_ran o_ok o_val o_fork o_join o_meta o_iss o_prf].
+  set (vout := IMap [((if okk then k_ok else k_error), val)]).
+  set (vfx := IMap (concat [field k_fork (IList (map ILink fork)); opt_field k_join (option_map ILink join)])).
+  set (m := concat [field k_ran (ILink ran); field k_out vout; field k_fx vfx; field k_meta (IMap meta);
+                    opt_field k_iss (option_map IString iss); field k_prf (IList (map ILink prf))]).
+  assert (K : keys_within [k_ran; k_out; k_fx; k_meta; k_iss; k_prf] m = true) by (destruct iss; reflexivity).
+  assert (ND : NoDup (map fst m)).
+  { destruct iss; cbn; repeat constructor; cbn; intuition discriminate. }
+  destruct (as_struct_canon _ _ K ND) as [es [E L]].
+  unfold outcome_typed. rewrite E. cbn [tbind]. unfold req, opt. rewrite !L.
+  assert (A1 : slookup k_ran m = Some (ILink ran)) by (destruct iss; reflexivity).
+  assert (A2 : slookup k_out m = Some vout) by (destruct iss; reflexivity).
+  assert (A3 : slookup k_fx m = Some vfx) by (destruct iss; reflexivity).
+  assert (A4 : slookup k_meta m = Some (IMap meta)) by (destruct iss; reflexivity).
+  assert (A5 : slookup k_iss m = option_map IString iss) by (destruct iss; reflexivity).
+  assert (A6 : slookup k_prf m = Some (IList (map ILink prf))) by (destruct iss; reflexivity).
+  rewrite A1, A2, A3, A4, A5, A6. cbn [option_map].
+  subst vout vfx.
+  change (canon (ILink ran)) with (ILink ran).
+  cbn [as_link obind of_opt tbind].
+  rewrite (result_typed_canon okk val W N). cbn [tbind].
+  change (IMap (concat [field k_fork (IList (map ILink fork)); opt_field k_join (option_map ILink join)]))
+    with (struct_map [field k_fork (IList (map ILink fork)); opt_field k_join (option_map ILink join)]).
+  rewrite effects_typed_canon. cbn [tbind obind].
+  rewrite (fact_typed_canon meta FM). cbn [tbind obind of_opt].
+  unfold tout_of, canon_outcome. cbn [o_ran o_ok o_val o_fork o_join o_meta o_iss o_prf].
+  destruct iss as [i|]; cbn [option_map];
+    [change (canon (IString i)) with (IString i)|]; cbn [as_string obind of_opt tbind];
+    rewrite links_typed_canon; cbn [of_opt tbind]; destruct okk; reflexivity.
+Qed.
+
+Definition rcpt_typed_ok (r : rcpt) : bool := outcome_typed_ok (r_ocm r).
+
+Theorem receipt_typed_canon r :
+  rcpt_typed_ok r = true ->
+  receipt_typed (canon (receipt_ipld r)) = TOk (tout_of (canon_outcome (r_ocm r)), r_sig r).
+Proof.
+  intros OK. destruct r as [o sg]. unfold rcpt_typed_ok in OK. cbn [r_ocm r_sig] in *.
+  unfold receipt_ipld, struct_map. cbn [r_ocm r_sig].
+  set (vo := outcome_ipld o).
+  set (m := concat [field k_ocm vo; field k_sig (IBytes sg)]).
+  assert (K : keys_within [k_ocm; k_sig] m = true) by reflexivity.
+  assert (ND : NoDup (map fst m)) by (cbn; repeat constructor; cbn; intuition discriminate).
+  destruct (as_struct_canon _ _ K ND) as [es [E L]].
+  unfold receipt_typed. rewrite E. cbn [tbind]. unfold req. rewrite !L.
+  assert (A1 : slookup k_ocm m = Some vo) by reflexivity.
+  assert (A2 : slookup k_sig m = Some (IBytes sg)) by reflexivity.
+  rewrite A1, A2. cbn [option_map]. subst vo. rewrite (outcome_typed_canon o OK).
+  reflexivity.
+Qed.
+
+Section RoundTrip.
+  Variable mh_digest : N -> N -> bstr -> option bstr.
+
+  Lemma decode_t_encode v : wf_ipld v = true -> in_budget v = true -> cbor_decode_all_t (cbor_encode v) = Some (canon v).
+  Proof. intros W B. apply cbor_decode_all_t_of_checked. apply cbor_roundtrip; assumption. Qed.
+
+  (* a receipt the library can issue, filed under the link of its bytes, reads back as itself (canonical form) *)
+  Theorem read_receipt_roundtrip s root r :
+    wf_ipld (receipt_ipld r) = true -> in_budget (receipt_ipld r) = true -> rcpt_typed_ok r = true ->
+    tbl_get s root = Some (receipt_bytes r) -> root_integrity mh_digest root (receipt_bytes r) = true ->
+    read_receipt mh_digest s root = ROk (canon_rcpt r).
+  Proof.
+    intros W B OK G I. unfold read_receipt. rewrite G. unfold receipt_bytes in *.
+    rewrite (decode_t_encode _ W B). rewrite (receipt_typed_canon r OK). rewrite I.
+    rewrite to_outcome_tout_of. reflexivity.
+  Qed.
+
+  (* ... and so does the client's lookup for the invocation the report files it under *)
+  Theorem client_receipt_roundtrip d inv rl r :
+    get_bytes (d_msg d) inv = Ret (Some rl) ->
+    wf_ipld (receipt_ipld r) = true -> in_budget (receipt_ipld r) = true -> rcpt_typed_ok r = true ->
+    tbl_get (d_store d) rl = Some (receipt_bytes r) -> root_integrity mh_digest rl (receipt_bytes r) = true ->
+    client_receipt mh_digest d inv = Some (ROk (canon_rcpt r)).
+  Proof.
+    intros G W B OK T I. unfold client_receipt. rewrite G. f_equal.
+    apply read_receipt_roundtrip; assumption.
+  Qed.
+
+  (* C10 through the reader: a receipt that verifies is read back as a receipt that verifies *)
+  Variable valid : N -> bstr -> bstr -> bool.
+  Theorem read_back_verifies k s root r :
+    wf_ipld (receipt_ipld r) = true -> in_budget (receipt_ipld r) = true -> rcpt_typed_ok r = true ->
+    tbl_get s root = Some (receipt_bytes r) -> root_integrity mh_digest root (receipt_bytes r) = true ->
+    verify_receipt valid k r = true ->
+    exists r', read_receipt mh_digest s root = ROk r' /\ verify_receipt valid k r' = true /\ r_sig r' = r_sig r.
+  Proof.
+    intros W B OK G I V. exists (canon_rcpt r). split; [apply read_receipt_roundtrip; assumption|].
+    split; [apply receipt_verifies_after_transport; exact V | reflexivity].
+  Qed.
+End RoundTrip.
+
+(* non-vacuity: a concrete receipt under the toy digest meets every hypothesis and reads back *)
+Definition exr : rcpt :=
+  mkRc (mkOcm ex_link true (IMap [(bs "n", IInt 7)]) [ex_link] (Some ex_link) [(bs "a", IInt 1)] (Some (bs "did:key:z6Mk")) [ex_link])
+       [237; 161; 3; 1; 9].
+Definition exr_data : bstr := receipt_bytes exr.
+Definition exr_root : bstr := cidv1 113 (mh_encode 18 (match toy_digest 18 32 exr_data with Some d => d | None => [] end)).
+Example exr_hyps :
+  wf_ipld (receipt_ipld exr) = true /\ in_budget (receipt_ipld exr) = true /\ rcpt_typed_ok exr = true /\
+  tbl_get (tbl_of [ex_b1; (exr_root, exr_data)]) exr_root = Some (receipt_bytes exr) /\
+  root_integrity toy_digest exr_root (receipt_bytes exr) = true.
+Proof. vm_compute. repeat split; reflexivity. Qed.
+Example exr_reads : read_receipt toy_digest (tbl_of [ex_b1; (exr_root, exr_data)]) exr_root = ROk (canon_rcpt exr).
+Proof. vm_compute. reflexivity. Qed.
+(* ... and the decision logic on altered blocks *)
+Example exr_decisions :
+  read_receipt toy_digest (tbl_of [ex_b1]) exr_root = RMissing /\
+  read_receipt toy_digest (tbl_of [(exr_root, firstn 20 exr_data)]) exr_root = RBad /\
+  read_receipt toy_digest (tbl_of [(ex_link, exr_data)]) ex_link = RIntegrity /\
+  read_receipt toy_digest (tbl_of [(exr_root, cbor_encode (IMap []))]) exr_root = RBad.
+Proof. vm_compute. repeat split; reflexivity. Qed.
